@@ -2,10 +2,10 @@
 import vlib
 
 
-def run(res, tier, harnesses, quick_deadline=100, thorough_deadline=900, kind="plain", nshards=None, extra=None, warm=False):
+def run(res, tier, harnesses, quick_deadline=100, thorough_deadline=900, kind="plain", nshards=None, extra=None, warm=False, blocks=(1, 8)):
     dl = quick_deadline if tier == "quick" else thorough_deadline
     for h in harnesses:
-        vlib.run_harness(res, h, tier, deadline=dl, kind=kind, nshards=nshards, extra=extra, timeout=dl * 3 + 600, warm=warm)
+        vlib.run_harness(res, h, tier, deadline=dl, kind=kind, nshards=nshards, extra=extra, timeout=dl * 3 + 600, warm=warm, blocks=blocks)
 
     def confirm(v):
         rp = v.get("replay") or {}
@@ -14,13 +14,29 @@ def run(res, tier, harnesses, quick_deadline=100, thorough_deadline=900, kind="p
         doc = vlib.replay_harness(rp["harness"], rp["case"], rp.get("kind", kind), tier, rp.get("extra"))
         if doc is None:
             return True   # crashed while replaying: certainly not clean
-        return any(x["key"] == v["key"] for x in doc["violations"])
+        if any(x["key"] == v["key"] for x in doc["violations"]):
+            return True
+        # the case alone runs clean.  A case is also a step of a history: the cases of a shard run in one process, one after the other, and the code
+        # under test may carry state from one object to the next (a function-local static, a cache).  Replay the shard - deterministic, same order -
+        # and report the violation if it is there again; the replay file then names the shard instead of the single case.
+        if rp.get("shard"):
+            doc = vlib.replay_harness_shard(rp["harness"], rp["shard"], rp.get("kind", kind), tier, rp.get("extra"))
+            if doc is None or any(x["key"] == v["key"] for x in doc["violations"]):
+                rp["needs_history"] = True
+                v["detail"] += "  [only in a process that has run other cases before: state carried from one object to the next; replay = the whole shard %s]" % rp["shard"]
+                return True
+        return False
     return confirm
 
 
 def replay(doc):
     rp = doc.get("replay") or {}
-    d = vlib.replay_harness(rp["harness"], rp["case"], rp.get("kind", "plain"), doc.get("tier", "quick"), rp.get("extra"))
+    if rp.get("needs_history"):
+        d = vlib.replay_harness_shard(rp["harness"], rp["shard"], rp.get("kind", "plain"), doc.get("tier", "quick"), rp.get("extra"))
+        if d is not None:
+            d["violations"] = [x for x in d["violations"] if x["key"] == doc.get("key")]
+    else:
+        d = vlib.replay_harness(rp["harness"], rp["case"], rp.get("kind", "plain"), doc.get("tier", "quick"), rp.get("extra"))
     if d is None:
         print("replay crashed")
         return 1
